@@ -244,6 +244,9 @@ func (fr *frame) contractCall(v ssa.Value, sp *FuncSpec, f *ssa.Function, sig *t
 		}
 	}
 	for _, c := range append(append([]*Clause{}, sp.Ensures...), sp.Marks...) {
+		if e.rootSpec != nil && e.rootSpec.Options["forget:"+shortName(name)+"."+c.Label] != "" {
+			continue
+		}
 		t, err := env2.boolExpr(c.Text)
 		if err != nil {
 			e.errf("%s:%d: %v", c.File, c.Line, err)
@@ -498,6 +501,12 @@ func (fr *frame) appendBuiltin(v ssa.Value, c *ssa.CallCommon, bc string, st *st
 	e.assume(fmt.Sprintf("(forall ((zj Int)) (! (=> (and (<= (s.base %s) zj) (< zj (+ (s.base %s) %s))) (= (select %s (+ %s (- zj (s.base %s)))) (select %s zj))) :pattern ((select %s zj))))", s, s, oldLen, nw, base, s, old, old))
 	if !isStr {
 		e.assume(implies(app(">=", nn, "1"), eq(app("select", nw, app("+", base, oldLen)), app("select", old, app("s.base", x)))))
+	}
+	// ground instances for the first 16 cells of the old contents (cheap; spares the solvers a quantifier chain when
+	// a header at the start of a growing buffer is followed through many appends)
+	for k := 0; k < 16 && r == "mem:uint8"; k++ {
+		ks := fmt.Sprint(k)
+		e.assume(implies(app(">", oldLen, ks), eq(app("select", nw, app("ea", base, ks)), app("select", old, app("ea", app("s.base", s), ks)))))
 	}
 	st.regs[r] = nw
 	fr.setVal(v, app("mk-slice", base, newLen, ite(inPlace, app("s.cap", s), newCap)))
